@@ -138,6 +138,27 @@ def applyMask : Op := fun j => do
   pure (obj [("padded", Json.bool (!Impl.blurringFits gm.mask kh kw)),
              ("data", arrToJson d), ("noise", arrToJson n)])
 
+/-- a sequence of `Imaging.apply_mask` calls on a fresh dataset; observation after every step -/
+def applyMaskChain : Op := fun j => do
+  let geom ← getGeom j
+  let h ← getNat (← field j "h")
+  let w ← getNat (← field j "w")
+  let data ← getRats (← field j "data")
+  let noise ← getRats (← field j "noise")
+  if data.length ≠ h * w ∨ noise.length ≠ h * w then throw "shape_mismatch"
+  let (kh, kw) ← getPair getNat (← field j "kernel")
+  let masks ← getList getMask (← field j "masks")
+  let mut cur := Impl.imagingInit data noise h w geom
+  let mut out : List Json := []
+  for m in masks do
+    match Impl.imagingApplyMaskStep cur ⟨m, geom⟩ kh kw 0 with
+    | none => throw "shape_mismatch"
+    | some st =>
+      cur := st
+      out := out ++ [obj [("padded", Json.bool (st.data.gm.mask.h != h || st.data.gm.mask.w != w)),
+                          ("data", arrToJson st.data), ("noise", arrToJson st.noise)]]
+  pure (Json.arr out.toArray)
+
 def grid : Op := fun j => do
   let gm ← getGMask j
   pure (gridToJson (Impl.gridSlimViaMask gm.mask gm.geom))
@@ -146,7 +167,7 @@ def ops : List (String × Op) :=
   [("c14.resized_util", resizedUtil), ("c14.extracted_util", extractedUtil),
    ("c14.mask_chain", maskChain), ("c14.array_chain", arrayChain),
    ("c14.trimmed_array_from", trimmedArrayFrom), ("c14.zoom", zoom),
-   ("c14.apply_mask", applyMask), ("c14.grid", grid)]
+   ("c14.apply_mask", applyMask), ("c14.apply_mask_chain", applyMaskChain), ("c14.grid", grid)]
 
 end Driver.C14
 
